@@ -364,29 +364,34 @@ func checkC18(P *Prog, r *Result) {
 		eachInstr(fn, func(b *ssa.BasicBlock, _ int, in ssa.Instruction) {
 			switch x := in.(type) {
 			case *ssa.Convert:
-				from, ok1 := P.numTypeOf(x.X.Type())
-				to, ok2 := P.numTypeOf(x.Type())
-				if !ok1 || !ok2 {
-					return
-				}
-				nConv++
-				key := fmt.Sprintf("%s→%s", from.name, to.name)
-				cnt[key]++
-				c := fmt.Sprintf("%s#%s@%d%s", fname(fn), key, cnt[key], suffix)
-				why := lossy(from, to)
-				if why == "" {
-					r.ok("C18/guarded-convert", c, P.ipos(in), "lossless on this configuration ("+work[fn]+")")
-					return
-				}
-				if _, isConst := x.X.(*ssa.Const); isConst {
-					r.ok("C18/guarded-convert", c, P.ipos(in), "constant operand")
-					return
-				}
-				okG, detail := P.convertGuarded(fn, b, x, from, to)
-				if okG {
-					r.ok("C18/guarded-convert", c, P.ipos(in), "lossy conversion is range-guarded: "+detail)
-				} else {
-					r.bad("C18/guarded-convert", c, P.ipos(in), fmt.Sprintf("unguarded lossy numeric conversion %s (%s) in %s: an out-of-range input is silently turned into another number; %s", key, why, work[fn], detail))
+				// a type parameter stands for every numeric type of its constraint: the conversion is decided per term
+				for _, ft := range termTypes(x.X.Type()) {
+					for _, tt := range termTypes(x.Type()) {
+						from, ok1 := P.numTypeOf(ft)
+						to, ok2 := P.numTypeOf(tt)
+						if !ok1 || !ok2 {
+							continue
+						}
+						nConv++
+						key := fmt.Sprintf("%s→%s", from.name, to.name)
+						cnt[key]++
+						c := fmt.Sprintf("%s#%s@%d%s", fname(fn), key, cnt[key], suffix)
+						why := lossy(from, to)
+						if why == "" {
+							r.ok("C18/guarded-convert", c, P.ipos(in), "lossless on this configuration ("+work[fn]+")")
+							continue
+						}
+						if _, isConst := x.X.(*ssa.Const); isConst {
+							r.ok("C18/guarded-convert", c, P.ipos(in), "constant operand")
+							continue
+						}
+						okG, detail := P.convertGuarded(fn, b, x, from, to)
+						if okG {
+							r.ok("C18/guarded-convert", c, P.ipos(in), "lossy conversion is range-guarded: "+detail)
+						} else {
+							r.bad("C18/guarded-convert", c, P.ipos(in), fmt.Sprintf("unguarded lossy numeric conversion %s (%s) in %s: an out-of-range input is silently turned into another number; %s", key, why, work[fn], detail))
+						}
+					}
 				}
 			case *ssa.Call:
 				ci := callOf(x)
@@ -407,6 +412,48 @@ func checkC18(P *Prog, r *Result) {
 	r.floor("C18/strconv-err", 2)
 	r.Extra["numeric_coercers"] = len(coercers)
 	r.Extra["conversions_classified"] = nConv
+}
+
+// termTypes: the types a value of type t can have: t itself, or — for a type parameter — the terms of
+// its constraint's union (`int8 | int16 | ~uint64`); nil when the constraint is not a union of basic types
+// (then the conversion is not numeric and not this rule's business).
+func termTypes(t types.Type) []types.Type {
+	tp, ok := types.Unalias(t).(*types.TypeParam)
+	if !ok {
+		return []types.Type{t}
+	}
+	iface, ok := tp.Constraint().Underlying().(*types.Interface)
+	if !ok {
+		return nil
+	}
+	var out []types.Type
+	var walk func(it *types.Interface, d int)
+	walk = func(it *types.Interface, d int) {
+		if d > 4 {
+			return
+		}
+		for i := 0; i < it.NumEmbeddeds(); i++ {
+			switch e := it.EmbeddedType(i).(type) {
+			case *types.Union:
+				for j := 0; j < e.Len(); j++ {
+					tt := e.Term(j).Type()
+					if sub, ok := tt.Underlying().(*types.Interface); ok {
+						walk(sub, d+1)
+					} else {
+						out = append(out, tt)
+					}
+				}
+			default:
+				if sub, ok := e.Underlying().(*types.Interface); ok {
+					walk(sub, d+1)
+				} else {
+					out = append(out, e)
+				}
+			}
+		}
+	}
+	walk(iface, 0)
+	return out
 }
 
 func boolSet(m map[*ssa.Function]string) map[*ssa.Function]bool {
@@ -467,7 +514,13 @@ func (P *Prog) convertGuarded(fn *ssa.Function, b *ssa.BasicBlock, cvt *ssa.Conv
 	}
 	// integer round-trip: T(U(x)) == x guarding every return of the converted value
 	if from.kind != nkFloat && to.kind != nkFloat {
-		if ok, d := P.roundTripGuard(fn, cvt); ok {
+		// S(D(x)) == x detects an out-of-range x only when D is narrower than S; through a type of the same
+		// or a larger width the round trip is the identity for every x (uint64 -> int -> uint64), so it proves nothing
+		if to.bits >= from.bits {
+			if ok, _ := P.roundTripGuard(fn, cvt); ok {
+				return false, desc + fmt.Sprintf("; the round-trip check is vacuous: %s and %s have the same width (or the destination is wider), so converting back always gives the original bits", from.name, to.name)
+			}
+		} else if ok, d := P.roundTripGuard(fn, cvt); ok {
 			return true, d
 		}
 	}
